@@ -230,9 +230,11 @@ func handleCAP(c *Client, e Event) {
 			// See: https://ircv3.net/specs/extensions/sts#the-port-key
 			if !hasTLSConnection {
 				if port, ok := sts["port"]; ok {
-					c.state.sts.upgradePort, _ = strconv.Atoi(port)
-					if c.state.sts.upgradePort < 21 {
+					upgradePort, err := strconv.Atoi(port)
+					if err != nil || upgradePort < 21 || upgradePort > 65535 {
 						isError = true
+					} else {
+						c.state.sts.upgradePort = upgradePort
 					}
 				} else {
 					isError = true
